@@ -54,11 +54,6 @@ theorem OptRel.refl_of {β : Type} {A : β → β → Prop} (h : ∀ x, A x x) (
   | none => trivial
   | some x => exact h x
 
-theorem LRel.refl_of {β : Type} {A : β → β → Prop} (h : ∀ x, A x x) (l : List β) : LRel A l l := by
-  induction l with
-  | nil => exact .nil
-  | cons x l ih => exact .cons (h x) ih
-
 theorem DiagSim.rfl' (d : Diag) : DiagSim d d := ⟨rfl, rfl, rfl, rfl⟩
 
 theorem ARel.pure {β : Type} {R : β → β → Prop} {a' a : β} (h : R a' a) :
